@@ -33,7 +33,7 @@ const char *verif_rule =
 	"at all, fini -> init -> thread-start); real threads, timing perturbed by generated sleeps; non-trivial = a control op ran while the logging thread was inside the logger callback, or the "
 	"backlog limit was hit, or the order differs from the documented one; distinct = hash of the decoded case";
 int verif_fork_per_case = 1;
-int verif_case_timeout_ms = 15000;
+int verif_case_timeout_ms = 40000;
 int verif_hang_is_violation = 1;
 int verif_nondeterministic = 1;
 size_t verif_max_size = 120;
@@ -144,7 +144,7 @@ extern "C" int verif_case(const uint8_t *data, size_t size, struct verif_report 
 			else {
 				qb_log_filter_ctl(fid, QB_LOG_FILTER_ADD, QB_LOG_FILTER_FILE, "t.c", LOG_TRACE);
 				qb_log_format_set(fid, "%b");
-				if (f_thr) qb_log_ctl(fid, QB_LOG_CONF_THREADED, QB_TRUE);
+				qb_log_ctl(fid, QB_LOG_CONF_THREADED, f_thr ? QB_TRUE : QB_FALSE);	/* said explicitly: a re-used target slot keeps the flag of its previous owner */
 				qb_log_ctl(fid, QB_LOG_CONF_ENABLED, QB_TRUE);
 				VCLASS(r, K_FILE);
 			}
@@ -189,7 +189,7 @@ extern "C" int verif_case(const uint8_t *data, size_t size, struct verif_report 
 			unsigned k = vr_u8(&v) % 16, arg = vr_u8(&v);
 			vop(r, 2 + k, arg, 0);
 			if (k <= 5) { int m = 1 + arg % 40; size_t z = (size_t[]){ 0, 10, 100, 400, 480 }[arg % 5]; VLOG(r, "  burst %d x %zu\n", m, z); do_burst(m, z); }
-			else if (k == 6) { int m = 200 + arg; VLOG(r, "  burst %d x 300\n", m); do_burst(m, 300); VCLASS(r, K_BURST); }
+			else if (k == 6) { int m = 200 + arg; VLOG(r, "  burst %d x 300\n", m); if (delay_us.load() > 50) delay_us = 50; /* a slow consumer and hundreds of queued records only make the case slow */ do_burst(m, 300); VCLASS(r, K_BURST); }
 			else if (k <= 8) { VLOG(r, "  control A (%u)%s\n", arg % 4, in_callback.load() ? " [worker busy]" : ""); control_a(arg); }
 			else if (k == 9 && b_open) {
 				if (b_enabled && arg % 2) do_burst(3 + arg % 6, 10);
@@ -213,6 +213,7 @@ extern "C" int verif_case(const uint8_t *data, size_t size, struct verif_report 
 					for (int w = 0; w < 2000 && !frozen.load(); w++) usleep(100);
 					if (frozen.load()) {
 						int m = 1150 + arg * 7;	/* up to ~1.3 MB: well beyond the limit, and beyond twice the limit in total */
+						delay_us = 0;	/* draining a thousand records through a slow consumer would take longer than the watchdog allows */
 						VLOG(r, "  logging thread frozen; burst %d x 400 (beyond the backlog limit)\n", m);
 						do_burst(m, 400);
 						VCLASS(r, K_BACKLOG); nontrivial = true;
